@@ -96,12 +96,15 @@ def _check_rotation(c, net, nodes, mask, use_vpc, step):
     return None
 
 
-def _scenario(masks, use_vpc, cut, dead=None):
+VSTARTS = (1, 9, 99999999999)   # first configuration version: successive versions cross a digit-count boundary
+
+
+def _scenario(masks, use_vpc, cut, dead=None, v0=1):
     vclock.fresh()
     B.RECV_SIZE = RECV
     servers, endpoint, nodes = _world()
     net = NetSim(servers, None, cuts=(cut,) if cut else ())
-    endpoint.cluster_config = (1, _config_text(masks[0]))
+    endpoint.cluster_config = (v0, _config_text(masks[0]))
     net.begin_call(1)
     try:
         c = AWSElastiCacheHashClient("%s:%d" % ENDPOINT, socket_module=net, use_vpc=use_vpc, default_noreply=False,
@@ -131,7 +134,7 @@ def _scenario(masks, use_vpc, cut, dead=None):
                 pass
         net.down = set()
     for step, m in enumerate(masks[1:], 2):
-        endpoint.cluster_config = (step, _config_text(m))
+        endpoint.cluster_config = (v0 + step - 1, _config_text(m))
         old_socks = [s for s in net.sockets if s.open and _norm(s.addr) != ENDPOINT]
         try:
             c.reconfigure_nodes()
@@ -163,15 +166,17 @@ def h_config(mask: int, use_vpc: bool, cut: int) -> int:
         return _scenario([mask], use_vpc, cut)
 
 
-def h_reconf(m1: int, m2: int, m3: int, use_vpc: bool, dead: int) -> int:
+def h_reconf(m1: int, m2: int, m3: int, use_vpc: bool, dead: int, vs: int) -> int:
     """
     sequences of scale-up / scale-down reconfigurations; optionally one node fails and is evicted before the first
     reconfiguration (dead = its index, -1 = none)
     pre: 1 <= m1 <= 15 and 1 <= m2 <= 15 and 1 <= m3 <= 15
     pre: -1 <= dead <= 3
+    pre: 0 <= vs < len(VSTARTS)
     post: _ != 0
     """
     dead = concretize(dead, -1, 3)
+    v0 = VSTARTS[concretize(vs, 0, len(VSTARTS) - 1)]
     masks = [concretize(m1, 1, 15), concretize(m2, 1, 15)]
     if NREC >= 2:
         masks.append(concretize(m3, 1, 15))
@@ -181,7 +186,7 @@ def h_reconf(m1: int, m2: int, m3: int, use_vpc: bool, dead: int) -> int:
     if "C19-stale-rotation" in KNOWN and any(masks[i] & ~masks[i + 1] for i in range(len(masks) - 1)):
         return skip("known-finding-region")
     with notrace():
-        return _scenario(masks, use_vpc, 0, None if dead < 0 else dead)
+        return _scenario(masks, use_vpc, 0, None if dead < 0 else dead, v0)
 
 
 def h_error(kind: int, cut: int) -> int:
@@ -247,7 +252,8 @@ BOUNDS = {
              "x every cut position of the config reply (0..239) and receive sizes 4/7; every pair of successive "
              "configurations (15 x 15, scale-up, scale-down, replacement) with and without pooling, optionally after one "
              "node (symbolic) failed and was evicted, or failed once within retry_timeout (pooled clients holding two "
-             "connections each); after construction and "
+             "connections each), configuration version numbers starting at a symbolic one of {1, 9, 99999999999} and "
+             "increasing by one per change; after construction and "
              "each reconfigure_nodes(): rotation == advertised names, 10-key corpus routed (real set) only to advertised "
              "nodes on the advertised address form and port, replaced clients' connections closed; ERROR / SERVER_ERROR / "
              "CLIENT_ERROR answers to the config command cut at every position",
